@@ -110,6 +110,9 @@ def gen_world_desc(rng, nlooms=(1, 2), ncpus=(1, 4), nprocs=(1, 2), nthreads=(1,
         for l in looms:
             l["skew"] = hs[l["name"].split(".")[0]]
     d = {"looms": looms, "models": list(models), "marks": marks or {}}
+    if rng.chance(6):
+        # the machine's clock origin: times in the output are relative to the first event, whatever the clocks' magnitude
+        d["base_clock"] = rng.choice([4 * 10 ** 12, 2 ** 53 + 12345, 2 ** 62, 2 ** 63 - 10 ** 15])
     if models and rng.chance(12):
         # each model is required by only some of the threads (possibly not by the last one, possibly not by the one using it)
         d["require_split"] = rng.u64()
@@ -123,6 +126,7 @@ def build_world(desc):
     w = W.World()
     w.models = list(desc["models"])
     w.require_split = desc.get("require_split")
+    w.base_clock = desc.get("base_clock", W.BASE_CLOCK)
     for k, v in desc.get("marks", {}).items():
         w.mark_types[int(k)] = {"title": v["title"], "stack": v["stack"],
                                 "labels": {int(a): b for a, b in v.get("labels", {}).items()}}
@@ -903,7 +907,8 @@ def run_machine_case(case, ctx, keys_filter=None, post=None, extra_flags=(), on_
         foreign = tf.foreign_paths(Rng(case["world"]["foreign"]), streams) if case["world"].get("foreign") else None
         tf.write_trace(tdir, streams, order=case.get("order"), extra_files=extra, foreign=foreign)
         flags = (["-l"] if case.get("lint") else []) + list(case.get("emuflags", [])) + list(extra_flags)
-        status, out, err = ctx.run_tool("ovniemu", flags + [tdir])
+        targ, tcwd = ctx.spell(tdir, int(ihash(case["actions"])[:6], 16))
+        status, out, err = ctx.run_tool("ovniemu", flags + [targ], cwd=tcwd)
         verdict = emu_verdict(status, err)
         exp, why = m.end_verdict()
         info = {"sim_ns": m.now, "size": len(case["actions"]), "ihash": ihash(case["actions"]), "verdict": "%s/%s" % (exp, verdict),
